@@ -16,3 +16,13 @@ pub open spec fn body_class(chunked: bool, cl: Option<u64>, method: Seq<char>, e
         }
     }
 }
+
+// ContentType::parse (src/content_type.rs; a table of string literals): here only that it is a function of the text
+pub uninterp spec fn ct_parse(s: Seq<char>) -> ContentType;
+impl ContentType {
+    #[verifier::external_body]
+    pub fn parse(s: &str) -> (r: Self)
+        ensures r == ct_parse(s@)
+    { unimplemented!() }
+}
+pub open spec fn lit_content_type() -> Seq<char> { asref_spec::<&str, str>(&"content-type")@ }
